@@ -173,7 +173,7 @@ PROPS = {
              "receive the four follow-ups the property lists (assign to, compare, move from again, destroy). After every step: each specified vector has the model's dimension and bitwise the "
              "model's values (so an operation on one vector that changes another is seen), external vectors are bound to their buffer, owned storage is disjoint and outside user buffers, "
              "ownership-flag invariants through the hook, user buffers equal their modelled image, documented exceptions exactly when the model says; ledger empty at the end.",
-        floors=dict(quick={"steps": 100000, "consumed_operands": 3000, "op.assign_to_unspecified": 1000, "op.move_from_unspecified_again": 500, "op.destroy_unspecified": 500, "op.compare_unspecified": 300,
+        floors=dict(quick={"steps": 100000, "consumed_operands": 3000, "op.assign_to_unspecified": 1000, "op.followup_same_size_assignment": 1000, "op.move_from_unspecified_again": 200, "op.destroy_unspecified": 200, "op.compare_unspecified": 150,
                            "op.set_backing_store": 1000, "op.move_assign": 2000, "op.copy_assign_rejected": 100},
                     thorough={"steps": 3000000}),
         assumptions=["where the property leaves an outcome open (is a moved-from externally backed vector still bound?) the monitor reads the answer (Dim(), address of element 0) instead of prescribing one"],
